@@ -96,7 +96,15 @@ def aggregate(runs):
             res[key] = None
         else:
             best = max(vs, key=lambda v: (v[2], str(v[0]), str(v[1])))
-            res[key] = best
+            # branches that diverge at the same (latest) line with the same clause differ only in what else the reference
+            # state says was owed at that point: the run breaks each of those obligations under some reading, so the tags unite
+            tags = []
+            for v in vs:
+                if v[2] == best[2] and v[1] == best[1]:
+                    for t in (v[0] if isinstance(v[0], list) else [v[0]]):
+                        if t not in tags:
+                            tags.append(t)
+            res[key] = [tags if len(tags) > 1 else tags[0]] + list(best[1:])
     return res
 
 
